@@ -13,8 +13,12 @@ _whole.install(globals(), "C11",
                     "generation (population engines) and that CMA-ES is told what it last asked.",
                note=_whole.HIST_NOTE,
                technique="Coq invariant of the history machine over all event streams + vm_compute trace replay + parent-feed monitor on real runs",
-               quick=200, thorough=5000, nontrivial=nontrivial, machine_replay=False, hist_replay=True,
+               front_ends=["driver"], quick=200, thorough=5000, nontrivial=nontrivial, machine_replay=False, hist_replay=True,
                forces=[(2, {"cap_evals": 900}), (1, {"cap_evals": 900, "height": 1, "engines": ["DE"]}), (1, {"cap_evals": 900, "height": 2, "engines": ["SEA", "SHADE"]}),
                        (1, {"cap_evals": 900, "height": 2, "engines": ["DEdither", "CMA"]}),
                        (1, {"cap_evals": 600, "height": 1, "engines": ["SEA"], "dim": 2, "levels_patch": [{"p_mutation": 0.1, "pop": 4, "gens": 1}], "gsc": {"kind": "MetaepochLimit", "n": 40}}),
                        (1, {"cap_evals": 600, "height": 2, "engines": ["GAStyleSEA", "CMA"], "dim": 2, "levels_patch": [{"p_mutation": 0.1, "pop": 5, "gens": 1}], "gsc": {"kind": "MetaepochLimit", "n": 30}})])
+
+# of the driver translator's obligations only the population-freshness analysis concerns this property: the translator refuses
+# (Unsupported) a run_metaepoch in which an engine is fed anything but the deme's most recent generation
+FRONT_END_FILTER = {"driver": "engine fed"}
